@@ -666,6 +666,11 @@ func (c S3ApiController) GetActions(ctx *fiber.Ctx) error {
 	if acceptRange != "" {
 		status = http.StatusPartialContent
 	}
+	if getstring(res.ContentRange) == "" {
+		// the backend did not apply a range (malformed or unsupported
+		// form): the whole object is returned, so this is not partial content
+		status = http.StatusOK
+	}
 
 	if res.Body != nil {
 		// -1 will stream response body until EOF if content length not set
